@@ -9,12 +9,20 @@ export GOCACHE="${GOCACHE:-$VERIF/.build/gocache}"
 GO=go1.26.8
 command -v $GO >/dev/null 2>&1 || GO=/opt/veriftools/go1.26.8/bin/go
 mkdir -p "$VERIF/.build"
+# VERIF_REPO (optional, for background sweeps only): build against a snapshot of the repository instead of /repo.
+# The registered commands never set it: they always rebuild from /repo's current working tree.
+REPO="${VERIF_REPO:-/repo}"
+MODFLAG=""
 build() {
   cd "$VERIF" || exit 2
-  cp /repo/go.sum "$VERIF/go.sum" 2>/dev/null
+  cp "$REPO/go.sum" "$VERIF/go.sum" 2>/dev/null
+  if [ "$REPO" != "/repo" ]; then
+    sed "s|=> /repo|=> $REPO|" "$VERIF/go.mod" > "$VERIF/.build/alt.mod"; cp "$REPO/go.sum" "$VERIF/.build/alt.sum"
+    MODFLAG="-modfile=$VERIF/.build/alt.mod"
+  fi
   # serialise concurrent builds of the same binary
   ( flock 9
-    $GO build -tags verif -o "$VERIF/.build/grulesim.new" ./cmd/grulesim 2>"$VERIF/.build/build.log" || exit 3
+    $GO build $MODFLAG -tags verif -o "$VERIF/.build/grulesim.new" ./cmd/grulesim 2>"$VERIF/.build/build.log" || exit 3
     mv -f "$VERIF/.build/grulesim.new" "$VERIF/.build/grulesim"
   ) 9>"$VERIF/.build/build.lock"
   if [ $? -ne 0 ]; then
@@ -26,7 +34,7 @@ build() {
 build_race() {
   cd "$VERIF" || exit 2
   ( flock 9
-    CGO_ENABLED=1 $GO build -race -tags verif -o "$VERIF/.build/grulesim-race.new" ./cmd/grulesim 2>"$VERIF/.build/build-race.log" || exit 3
+    CGO_ENABLED=1 $GO build $MODFLAG -race -tags verif -o "$VERIF/.build/grulesim-race.new" ./cmd/grulesim 2>"$VERIF/.build/build-race.log" || exit 3
     mv -f "$VERIF/.build/grulesim-race.new" "$VERIF/.build/grulesim-race"
   ) 9>"$VERIF/.build/build.lock"
   if [ $? -ne 0 ]; then
